@@ -23,6 +23,7 @@ typedef struct Char_Parser {
 unsigned long long verif_spec_val;
 size_t verif_spec_n;
 _Bool verif_idle, verif_esc;
+_Bool verif_oct0, verif_hex0; size_t verif_on0, verif_hn0, verif_us0; /* ghost: escape-collecting state at entry of parse() */
 /* specification of the value of a digit string: positional notation, most significant digit first (loop-free, n <= 8) */
 #define SPEC_STEP(i) if ((i) < s->n) v = v * base + (unsigned)verif_digit(s->d[i]);
 static inline unsigned long long spec_value(const vsmall *s, unsigned base) {
@@ -53,6 +54,7 @@ def rules():
     r = base_rules()
     r.add("R9.sm.empty", r"\b(hex_matches|octal_matches)\.empty\(\)", r"vsmall_empty(&\1)")
     r.add("R9.sm.size", r"\b(hex_matches|octal_matches)\.size\(\)", r"vsmall_size(&\1)")
+    r.add("R9.sm.front", r"\b(hex_matches|octal_matches)\.(front|back)\(\)", r"vsmall_\2(&\1)")
     r.add("R9.sm.clear", r"\b(hex_matches|octal_matches)\.clear\(\)", r"vsmall_clear(&\1)")
     r.add("R9.sm.push", r"\b(hex_matches|octal_matches)\.push_back\(", r"vsmall_push_back(&\1, ")
     r.add("R9.m.push", r"\bmatch\.push_back\(", "vtail_push_back(match, ")
